@@ -167,7 +167,8 @@ check("C09", "exploration",
       "set (quick: default + all single and pairwise deviations; thorough: the full product of 7 dimensions), repeated under each base "
       "setting of the non-neutral options (skip-none, other-variant, deprecation), plus every single-item operation of C01's space under "
       "the default, one alternative per dimension and - where it compiles - `Default` among the response derives; at token level the two "
-      "derive lists (incl. lists without Serialize / Deserialize) may change `#[derive(..)]` and nothing else; x every payload vector, single-point "
+      "derive lists (incl. lists without Serialize / Deserialize) may change `#[derive(..)]` and nothing else, and on every operation "
+      "visibility / serde path / custom-scalars module / extern enums may change only the one thing each is about; x every payload vector, single-point "
       "corruption and variables assignment; acceptance, re-serialised payload and serialised variables must equal those "
       "under the default options.",
       "Trusted: nothing beyond rustc/serde; the oracle is equality between option sets. Extern enums are consumer-supplied "
